@@ -64,6 +64,9 @@ def use_counts(t, objects, side, counts=None):
                 if side == "serialization" and (f.skip_ser or f.initvar):
                     continue
                 visit(f.t)
+            if side == "serialization":
+                for m in n.methods:  # serialized methods are properties of the serialization schema
+                    visit(m["ret"])
         else:
             for c in n.children():
                 visit(c)
@@ -76,7 +79,7 @@ def mk_program(env):
     """program with named types shared / recursive / renamed"""
     rng = env.rng
     g = gen_types.Gen(rng, max_depth=rng.choice([2, 3]), std=rng.random() < 0.3)
-    g.feats = {"flatten", "pattern", "additional", "class_aliaser", "dep_req", "alias", "field_cons", "required_md", "skip", "init_false", "undefined", "none_as_undefined"}
+    g.feats = {"flatten", "pattern", "additional", "class_aliaser", "dep_req", "alias", "field_cons", "required_md", "skip", "init_false", "undefined", "none_as_undefined", "methods"}
     kind = rng.random()
     tags = set()
     if kind < 0.35:
@@ -93,6 +96,12 @@ def mk_program(env):
         fields.append(F(g.fresh("f"), g.type(1)))
         t = ObjectT("dataclass", g.fresh("D"), fields)
         tags.add("shared")
+        if rng.random() < 0.25:
+            # the shared named type is also (or only, when k = 1: then it is used twice on the serialization side) the return type
+            # of a serialized method: a property of the serialization schema (never executed here)
+            wrap = rng.choice([lambda x: x, lambda x: Coll("list", x), lambda x: opt(x)])
+            t.methods.append({"name": g.fresh("m"), "alias": None, "prop": rng.random() < 0.3, "ret": wrap(shared), "expr": "None"})
+            tags.add("method-returns-named-type")
         if rng.random() < 0.4:  # recursion
             t.fields.append(F(g.fresh("f"), rng.choice([opt(Ref(t.name)), Coll("list", Ref(t.name))]), default=None))
             t.fields[-1].default = "None" if t.fields[-1].t.ann().startswith("Optional") else None
